@@ -30,11 +30,13 @@ class Clock(object):
         self.n = 0
         self.budget = None
         self.expired = False
+        self.hung = False
 
     def start(self, budget):
         self.n = 0
         self.budget = budget
         self.expired = False
+        self.hung = False
 
 
 CLOCK = Clock()
@@ -42,6 +44,12 @@ CLOCK = Clock()
 
 class HangAlarm(BaseException):
     pass
+
+
+def _on_alarm(*a):
+    # zincparser's bare `except:` may swallow the exception: the flag is what the oracle reads
+    CLOCK.hung = True
+    raise HangAlarm()
 
 
 def nesting(text):
@@ -212,6 +220,10 @@ class C09(BaseCheck):
         if names:
             a, b = r.choice(names)
             out.append((text[:a] + text[a].upper() + text[a + 1:], 'upcase-name', 'first letter of a tag/column name upper-cased at %d' % a))
+            a, b = r.choice(names)
+            ch = r.choice([u'\u00e9', u'\u00b5', u'\u0436', u'\uff11', u'\u00df', u'\u0663'])
+            out.append((text[:b] + ch + text[b:], 'nonascii-in-name',
+                        'non-ASCII alphanumeric %r appended to a tag/column name (names are ASCII letters, digits, underscore) at %d' % (ch, b)))
         for (a, b, inner_v3) in d.inner:
             if inner_v3:
                 out.append((text[:a] + '2.0' + text[b:], 'inner-verskew-pre3',
@@ -365,6 +377,8 @@ class C09(BaseCheck):
             signal.setitimer(signal.ITIMER_REAL, 0)
         res['clock'] = CLOCK.n
         res['expired'] = CLOCK.expired
+        if CLOCK.hung:
+            res['outcome'] = 'hang'
         CLOCK.budget = None
         return res
 
@@ -434,7 +448,7 @@ class C09(BaseCheck):
         out = sched.SimStdout(fault=None)
         old = sys.stdout
         sys.stdout = out
-        oldh = signal.signal(signal.SIGALRM, lambda *a: (_ for _ in ()).throw(HangAlarm()))
+        oldh = signal.signal(signal.SIGALRM, _on_alarm)
         viol = None
         distinct = []
         nontrivial = 0
